@@ -145,6 +145,10 @@ def run_leg(ck, binp, tier, replay=None):
             rel_bundle.add(canon(c["bundle_key"]), r["bd"], slim(c))
     for rel in (rel_shell, rel_bundle):
         for what, k, ws in rel.bad:
+            key = f"{P}mr:{rel.name}_not_a_function_of_content" if what == "not_a_function" else f"{P}mr:{rel.name}_collision"
+            seen[key] = seen.get(key, 0) + 1
+            if seen[key] > 1:
+                continue
             if what == "not_a_function":
                 ck.violation(f"{P}mr:{rel.name}_not_a_function_of_content",
                              f"same abstract content, different real {rel.name}: {k[:500]}: {ws[0][0][:16]} ({ws[0][1]}) vs {ws[1][0][:16]} ({ws[1][1]})",
